@@ -152,6 +152,13 @@ def label_sites(db: DB, modname: str):
             for x in n.comparators[0].elts:
                 if kind and isinstance(x, ast.Constant) and isinstance(x.value, str):
                     out.append((n, x.value, kind))
+        if isinstance(n, ast.Compare) and len(n.ops) == 1 and isinstance(n.ops[0], (ast.In, ast.NotIn)) and \
+                isinstance(n.left, ast.Constant) and isinstance(n.left.value, str):
+            # '<label>' in [t.data for t in ...]
+            coll = subject(n.comparators[0], n)
+            if isinstance(coll, (ast.ListComp, ast.SetComp, ast.GeneratorExp)) and \
+                    isinstance(coll.elt, ast.Attribute) and coll.elt.attr == "data":
+                out.append((n, n.left.value, "data-compare"))
         if isinstance(n, ast.Compare) and len(n.ops) == 1 and len(n.comparators) == 1:
             l, r = n.left, n.comparators[0]
             for a, b in ((l, r), (r, l)):
@@ -324,12 +331,19 @@ def run(db: DB, rep: Report) -> None:
     # every specification string of the mapping goes through its grammar
     mp = db.func("teaal.parse.mapping.Mapping.__init__")
     for api, want in (("parse_ranks", 1), ("parse_partitioning", 1), ("parse", 1)):
-        cs = [n for n in walk_no_nested(mp.node) if isinstance(n, ast.Call) and isinstance(n.func, ast.Attribute)
-              and n.func.attr == api and norm(n.func.value) in ("PartitioningParser", "SpaceTimeParser")]
-        ok = len(cs) >= want and all(not [t for t, pol in paths.guards(c, stop=mp.node)
+        # (in the constructor or in the private helpers it delegates to)
+        cs = []
+        for g_ in ([mp] + [m_ for m_ in mp.cls.methods.values() if m_ is not mp and m_.name.startswith("__")
+                           and not m_.name.endswith("__")]):
+            for n in walk_no_nested(g_.node):
+                if isinstance(n, ast.Call) and isinstance(n.func, ast.Attribute) and n.func.attr == api and \
+                        norm(n.func.value) in ("PartitioningParser", "SpaceTimeParser"):
+                    cs.append((n, g_))
+        ok = len(cs) >= want and all(not [t for t, pol in paths.guards(c, stop=g_.node)
                                          if any(isinstance(x, ast.Name) and x.id in
                                                 {a.id for a in ast.walk(c.args[0]) if isinstance(a, ast.Name)}
-                                                for x in ast.walk(t))] for c in cs)
+                                                for x in ast.walk(t))] for c, g_ in cs)
+        cs = [c for c, _ in cs]
         rep.check("L10", ok, db.loc(cs[0]) if cs else db.loc(mp.node), mp.short, "mapping-uses:" + api,
                   "Mapping parses every entry with %s, unconditionally on the entry's text" % api,
                   "Mapping.__init__ does not hand every entry to %s (or does so only for some spellings of "
